@@ -21,7 +21,7 @@ PROPERTY = "C20"
 TECHNIQUE = "recording proxy on the wrapped strategy INSTANCE (exact arguments / results of every inner call) + offline translation checker; comparison with an unwrapped equal-seed twin; sys.monitoring yield injection for the threading backend with the sequential result as oracle"
 RULE = ("cases = wrapper {ParallelUtilityEstimationWrapper, SubSamplingWrapper, SingleAnnotatorWrapper} x compatible inner registry entry x "
         "candidate mode x data/label regime; Parallel: n_jobs in {1,2,3,n_cand,-1}, backends threading / loky, utilities must equal those "
-        "of an unwrapped equal-seed twin (rtol 1e-9), same selection when the best candidate is unique, no exception the inner strategy "
+        "of an unwrapped equal-seed twin (rtol 1e-7: chunked pairwise-distance kernels round differently), same selection when the best candidate is unique, no exception the inner strategy "
         "does not raise; with the threading backend a sys.monitoring LINE callback on skactiveml code yields (sleep(0)) at random lines, "
         "5 (quick) / 25 (thorough) schedules per case, every schedule must reproduce the sequential result. SubSampling: the proxy shows the inner strategy was "
         "called once with a duplicate-free subset of the caller's candidates of size min(max_candidates, n) resp. ceil(frac*n); the "
@@ -200,7 +200,7 @@ def run_par(desc, c, e, add, rng):
         return {"nontrivial": False}
     contracts.count("C20.parallel-twin-oracle")
     u_ref, u_out = np.asarray(ref[1], float)[0], np.asarray(out[1], float)[0]
-    if u_ref.shape != u_out.shape or not np.allclose(u_ref, u_out, rtol=1e-9, atol=1e-12, equal_nan=True):
+    if u_ref.shape != u_out.shape or not np.allclose(u_ref, u_out, rtol=1e-7, atol=1e-9, equal_nan=True):
         i = int(np.nanargmax(np.abs(np.nan_to_num(u_ref) - np.nan_to_num(u_out)))) if u_ref.shape == u_out.shape else -1
         add("parallel-utilities-differ-from-inner", "n_jobs=%s backend=%s: position %d: %r (wrapper) vs %r (inner)" % (
             nj, desc["backend"], i, u_out[i] if i >= 0 else u_out.shape, u_ref[i] if i >= 0 else u_ref.shape))
